@@ -1,5 +1,5 @@
 """Which engine parts decide which property."""
-from .engines import deque, codec, stream, pipe
+from .engines import deque, codec, stream, pipe, readn
 
 # part name -> (run(res, work, tier, seed), replay(rep, work))
 PARTS = {
@@ -10,6 +10,7 @@ PARTS = {
     "stream.main": (stream.run_stream, stream.replay),
     "codec.footprint": (codec.run_footprint, codec.replay_footprint),
     "pipe.random": (pipe.run_random, pipe.replay),
+    "readn.main": (readn.run_readn, readn.replay),
 }
 
 # property -> parts whose violations (filtered by property id) decide it
@@ -21,6 +22,7 @@ PROPERTY_PARTS = {
     "C07": ["codec.small", "codec.prod"],
     "C09": ["codec.small", "codec.prod", "codec.footprint"],
     "C08": ["stream.main"],
+    "C17": ["readn.main"],
     "C03": ["pipe.random"],
     "C04": ["pipe.random"],
     "C05": ["pipe.random", "codec.small", "codec.prod"],
